@@ -94,6 +94,33 @@ def add_scaling(rng, spec, ctype, p=1.0):
             if Lc is not None and not any(pr[0].startswith('NI_') for pr in Lc['props']):
                 shadow = scalemodel.gen_scales(rng, depth=1)
                 Lc['props'] = Lc['props'] + scalemodel.scale_props(shadow, with_count=True, status='scaled')
+    if rng.random() < 0.25:
+        # an outer scope carries scale definitions that cannot be built (a half-edited group, a template left on the root
+        # object) while every channel below it has its own complete graph: the channel's scope is the one that counts
+        own = set()
+        for q in chans:
+            Lq = _first_listing(spec, q)
+            if Lq is not None and any(pr[0].startswith('NI_Scale[') for pr in Lq['props']) and not any(
+                    pr[0] == 'NI_Scaling_Status' and pr[2] == 'scaled' for pr in Lq['props']):
+                own.add(q)
+        levels = [('/', list(chans))] + [(fmt.quote_path(g), [q for q in chans if names[q][0] == g])
+                                        for g in sorted(set(names[q][0] for q in chans))]
+        rng.shuffle(levels)
+        for level, under in levels:
+            if not under or any(q not in own for q in under) or level not in names:
+                continue
+            L = _first_listing(spec, level)
+            if L is None or any(pr[0].startswith('NI_') for pr in L['props']):
+                continue
+            if rng.random() < 0.5:
+                junk = [['NI_Number_Of_Scales', 'u32', 1], ['NI_Scale[0]_Scale_Type', 'str', 'Linear']]      # no slope, no intercept
+            else:
+                junk = [['NI_Number_Of_Scales', 'u32', 1], ['NI_Scale[0]_Scale_Type', 'str', 'Table'],
+                        ['NI_Scale[0]_Table_Scaled_Values_Size', 'u32', 3], ['NI_Scale[0]_Table_Pre_Scaled_Values_Size', 'u32', 3]] + [
+                    ['NI_Scale[0]_Table_Scaled_Values[%d]' % i, 'f64', scalemodel.f64(v)] for i, v in enumerate([1.0, 1.0, 2.0])] + [
+                    ['NI_Scale[0]_Table_Pre_Scaled_Values[%d]' % i, 'f64', scalemodel.f64(v)] for i, v in enumerate([0.0, 1.0, 2.0])]
+            L['props'] = L['props'] + junk
+            break
     for path in scaled:
         t = ctype[path]
         if t not in scalemodel.SCALABLE:
